@@ -28,19 +28,50 @@
    package (every non-test file: so the callee's body and everything it calls, transitively
    and whatever the dispatch) and prints what it finds as [io_confinement], which
    [C10_shape_confined] requires to be empty:
-     1. no reference to an object of os, io/ioutil, syscall, os/exec, os/signal, net, net/http,
-        log, plugin, unsafe, reflect, runtime/debug, to fmt.Print*/Scan*, to print/println,
-        outside the bodies of the EFileSys entry points (File.Save), which are events;
+     1. an ALLOW-LIST of packages: no import of, and no reference to an object (function,
+        variable, type, method, field) of, a package other than bytes, fmt, go/format, io,
+        regexp, sort, strconv, strings, unicode, unicode/utf8 (what jen imports today) and
+        errors, math, math/bits, cmp, slices, maps, unicode/utf16; none to fmt.Print*/Scan*, to
+        print/println; os and io/ioutil only inside the bodies of the EFileSys entry points
+        (File.Save), which are events.  The list is printed in Gen/IO.v.  A future harmless
+        use of another package is therefore an alarm (fixed by adding the package to the list
+        in tools/cmd/io2coq/main.go after looking at what it does);
      2. no package-level variable or struct field whose type implements io.Writer (other than
-        bytes.Buffer / strings.Builder);
-     3. no type assertion, type-switch case or conversion to such a type;
+        bytes.Buffer / strings.Builder); and no package-level variable, struct field or
+        parameter of an exported function whose type is an interface type with methods that is
+        declared outside package jen, is not `error` and does not implement io.Writer
+        (io.StringWriter, io.Closer ..: a sink of the caller that is not a writer parameter);
+     3. no type assertion, type-switch case or conversion to a type that implements io.Writer
+        (other than those two), to a type parameter, or to ANY interface type that has methods
+        (io.StringWriter, io.Closer, interface{ WriteString(string) (int, error) } ..: the
+        methods of a value received as interface{}); the unchanged package contains none, so
+        the allow-list of such interfaces is empty (printed in Gen/IO.v with the targets found);
      4. no cgo, no go:linkname.
-   Still assumed, unchecked: the other standard library packages jen uses (bytes, fmt.Fprint*
-   and Sprint*, go/format, io, sort, strconv, strings, unicode) touch nothing but their
+   THE SAME OBJECTS.  [noformat] is a parameter of [run] and the refinement theorems instantiate
+   it with [f_noformat f] for the File f whose model render they speak about; Save's theorem
+   runs the event list of File.Render for the same f.  The table justifies this because
+     5. `if r.NoFormat` is [EvCondNoFormat] only when r is the RECEIVER of the entry, and package
+        jen never writes that field: [io_noformat_writes] (required to be empty by the second
+        half of [C10_shape_confined]) lists, for the whole package, every assignment, op=,
+        ++/--, address-of whose target is File.NoFormat, and every assignment of a whole struct
+        that holds one (`*f = File{..}`); the field is set by the user only;
+     6. a call is [EvRenderToBuffer] (f.Render(buf) in Save) or a delegation (KDelegate) only
+        when its receiver is the entry's own receiver, and a call is one of these or [EvRender]
+        only when every receiver / argument whose type is one of the entry's own object types
+        (File, Statement, Group: the named types of its receiver and parameters) or an
+        interface type (a Code, an interface{}) is an identifier denoting the entry's receiver or
+        parameter - go/types object identity;
+        anything else (NewFile("x").Render(buf), other.render(file, buf, nil),
+        s.render(NewFile("x"), buf, nil)) is [EvOther], which no checker accepts;
+     7. an entry that assigns its receiver or a parameter, or takes its address, starts with an
+        [EvOther] (object identity would no longer be value identity).
+   Still assumed, unchecked: the allow-listed standard library packages touch nothing but their
    arguments; and the translator itself (its rules are listed in the header of
    tools/cmd/io2coq/main.go; names in the table are go/types objects, not spellings; every
    parameter whose type implements io.Writer is a caller's writer, but a writer handed over
-   INSIDE another value - a struct, a slice, a func - is not tracked). *)
+   INSIDE another value - a struct, a slice, a func - is not tracked; WHICH code an [EvRender]
+   renders besides the entry's own objects is not in the table: it is the hypothesis
+   [phase1_matches] of the refinement theorems). *)
 From Jen Require Import Base.Bytes Spec.IOShape Gen.IO.
 From Jen Require Import Model.Code Model.Naming Model.Render Model.FileRender.
 From Jen Require Import Proofs.IOProofs.
@@ -63,8 +94,9 @@ From Jen Require Import Proofs.IOProofs.
 Theorem C10_shape_table : table_wf io_entries = true /\ entries_present = true.
 Proof. exact io_table_ok. Qed.
 
-(* the confinement scan of the translator (see the header) reports nothing *)
-Theorem C10_shape_confined : io_confinement = [].
+(* the confinement scan of the translator (see the header, 1-4) reports nothing, and package
+   jen nowhere writes File.NoFormat (5) *)
+Theorem C10_shape_confined : io_confinement = [] /\ io_noformat_writes = [].
 Proof. exact io_confined_ok. Qed.
 
 Theorem C10_shape_delegates :
